@@ -450,7 +450,7 @@ func prioritizeDefineArgNames(
 	var defineArgs []string
 
 	for _, name := range definedArgNames {
-		if name[len(name)-1:] == ":" && len(name) >= 2 {
+		if len(name) >= 2 && name[len(name)-1:] == ":" {
 			namedDefineArgs = append(namedDefineArgs, name)
 			continue
 		}
